@@ -53,35 +53,91 @@ func (cache *Cache) evict() {
 	delete(cache.entries, key)
 }
 
+// The first byte of a cache key tells a single-message verification from a batch verification.
+const (
+	keyVerify byte = 1
+	keyBatch  byte = 2
+)
+
+// cacheKey returns the cache key for verifying the signature against the message or batch
+// with the given digest. The key determines the kind of verification, the digest, the
+// signature scheme, and every claimed signer together with its signature bytes, so that a
+// remembered verdict is only ever reused for the very same verification.
+// It returns false for signatures that cannot be cached (nil or of an unknown type).
+func cacheKey(kind byte, digest hotstuff.Hash, signature hotstuff.QuorumSignature) (string, bool) {
+	var key strings.Builder
+	_ = key.WriteByte(kind)
+	_, _ = key.Write(digest[:])
+	switch sig := signature.(type) {
+	case crypto.Multi[*crypto.ECDSASignature]:
+		_ = key.WriteByte(1)
+		writeMulti(&key, sig)
+	case crypto.Multi[*crypto.EDDSASignature]:
+		_ = key.WriteByte(2)
+		writeMulti(&key, sig)
+	case *crypto.BLS12AggregateSignature:
+		if sig == nil {
+			return "", false
+		}
+		_ = key.WriteByte(3)
+		participants := sig.Participants()
+		writeUint64(&key, uint64(participants.Len()))
+		participants.ForEach(func(id hotstuff.ID) {
+			writeUint64(&key, uint64(id))
+		})
+		_, _ = key.Write(sig.ToBytes())
+	default:
+		return "", false
+	}
+	return key.String(), true
+}
+
+// writeMulti writes the number of signatures followed by each signer's id and
+// length-prefixed signature bytes.
+func writeMulti[T crypto.Signature](key *strings.Builder, sig crypto.Multi[T]) {
+	writeUint64(key, uint64(len(sig)))
+	for _, s := range sig {
+		b := s.ToBytes()
+		writeUint64(key, uint64(s.Signer()))
+		writeUint64(key, uint64(len(b)))
+		_, _ = key.Write(b)
+	}
+}
+
+// writeUint64 writes v in little-endian byte order.
+func writeUint64(key *strings.Builder, v uint64) {
+	for i := 0; i < 64; i += 8 {
+		_ = key.WriteByte(byte(v >> i))
+	}
+}
+
 // Sign signs a message and adds it to the cache for use during verification.
 func (cache *Cache) Sign(message []byte) (sig hotstuff.QuorumSignature, err error) {
 	sig, err = cache.impl.Sign(message)
 	if err != nil {
 		return nil, err
 	}
-	var key strings.Builder
-	hash := sha256.Sum256(message)
-	_, _ = key.Write(hash[:])
-	_, _ = key.Write(sig.ToBytes())
-	cache.insert(key.String())
+	if key, ok := cacheKey(keyVerify, sha256.Sum256(message), sig); ok {
+		cache.insert(key)
+	}
 	return sig, nil
 }
 
 // Verify verifies the given quorum signature against the message.
 func (cache *Cache) Verify(signature hotstuff.QuorumSignature, message []byte) error {
-	var key strings.Builder
-	hash := sha256.Sum256(message)
-	_, _ = key.Write(hash[:])
-	_, _ = key.Write(signature.ToBytes())
+	key, ok := cacheKey(keyVerify, sha256.Sum256(message), signature)
+	if !ok {
+		return cache.impl.Verify(signature, message)
+	}
 
-	if cache.check(key.String()) {
+	if cache.check(key) {
 		return nil
 	}
 
 	if err := cache.impl.Verify(signature, message); err != nil {
 		return err
 	}
-	cache.insert(key.String())
+	cache.insert(key)
 
 	return nil
 }
@@ -104,18 +160,19 @@ func (cache *Cache) BatchVerify(signature hotstuff.QuorumSignature, batch map[ho
 	// Sum appends the digest to its argument; hash[:0] makes it write into hash.
 	hasher.Sum(hash[:0])
 
-	var key strings.Builder
-	_, _ = key.Write(hash[:])
-	_, _ = key.Write(signature.ToBytes())
+	key, ok := cacheKey(keyBatch, hash, signature)
+	if !ok {
+		return cache.impl.BatchVerify(signature, batch)
+	}
 
-	if cache.check(key.String()) {
+	if cache.check(key) {
 		return nil
 	}
 
 	if err := cache.impl.BatchVerify(signature, batch); err != nil {
 		return err
 	}
-	cache.insert(key.String())
+	cache.insert(key)
 	return nil
 }
 
